@@ -76,6 +76,15 @@ CodecVector(m) ==
     Step("decode",   "C05", FALSE, [wire |-> w, caps |-> FALSE], ExpectDecode(w)),
     Step("reencode", "C12", FALSE, [wire |-> w], ExpectReencode(w)) >>)
 
+\* a refused encode leaves nothing behind: four times, a message the encoder must refuse at its second or later payload, then an
+\* encodable message, which encodes to its reference octets and decodes back to itself
+FailOkVector(bad, good) ==
+  LET round(r) == << Step("encode", "C05", FALSE, [msg |-> bad], [panic |-> FALSE]),      \* (outside the domain: no claim beyond "no crash")
+                     Step("encode", "C05", FALSE, [msg |-> good], ExpectEncode(good)),
+                     Step("decode", "C03", FALSE, [wire |-> Ref(3 * r - 1, "wire"), caps |-> TRUE],
+                          [panic |-> FALSE, capdiff |-> FALSE, err |-> FALSE, msg |-> Norm(good)]) >> IN
+  Vector("codec_failok", round(1) \o round(2) \o round(3) \o round(4))
+
 \* design-level theorem checked by TLC on every generated message: the reference codec is its own inverse
 \* on the encodable domain and its output is canonical
 RefCodecSound(m) ==
